@@ -39,6 +39,7 @@ struct Shm {
   ShmClass classes[160];
   uint32_t desclen;
   char desc[48 * 1024];
+  char attempt[2048];
   char failrule[128];
   char failmsg[8 * 1024];
 };
@@ -72,6 +73,7 @@ void Case::cls(const char *name, unsigned n) {
     snprintf(c.name, sizeof c.name, "%s", name); c.n = n;
   }
 }
+void Case::attempt(const std::string &s) { snprintf(g_shm->attempt, sizeof g_shm->attempt, "%s", s.c_str()); }
 void Case::nontrivial() { g_shm->nontrivial = 1; }
 void Case::checks(unsigned n) { g_shm->checks += n; }
 void Case::excluded(const char *id) { std::string s = std::string("excluded_known:") + id; cls(s.c_str()); }
@@ -159,7 +161,7 @@ static uint64_t g_forks = 0;
 
 static Outcome evaluate(const Tape &t, unsigned cpu_limit) {
   Outcome o;
-  memset(g_shm, 0, offsetof(Shm, desc) + 1); g_shm->failrule[0] = 0; g_shm->failmsg[0] = 0;
+  memset(g_shm, 0, offsetof(Shm, desc) + 1); g_shm->attempt[0] = 0; g_shm->failrule[0] = 0; g_shm->failmsg[0] = 0;
   g_forks++;
   fflush(stdout); fflush(stderr);
   pid_t pid = fork();
@@ -187,6 +189,7 @@ static Outcome evaluate(const Tape &t, unsigned cpu_limit) {
   if (WIFEXITED(status) && WEXITSTATUS(status) == 0) { o.kind = g_shm->discarded ? Outcome::DISCARD : Outcome::OK; return o; }
   if (WIFSIGNALED(status) && (WTERMSIG(status) == SIGXCPU || WTERMSIG(status) == SIGKILL)) { o.kind = Outcome::TIMEOUT; o.signature = "hang"; o.msg = "CPU limit exceeded"; return o; }
   o.kind = Outcome::FAIL;
+  if (g_shm->attempt[0]) { Case tmp; tmp.desc(std::string("\n [died or failed during: ") + g_shm->attempt + "]"); }
   if (WIFEXITED(status) && WEXITSTATUS(status) == 1 && g_shm->failrule[0]) {
     o.signature = std::string("oracle:") + g_shm->failrule; o.msg = g_shm->failmsg; return o;
   }
